@@ -65,6 +65,9 @@ type Config struct {
 	// Generic selects the generic protobuf runtime for (un)marshalling on the
 	// wire for a packet; nil = always fsutil's own codec.
 	Generic func() bool
+	// Gate is called before a packet is handed over; it may block (until the
+	// harness opens the gate) to build up pending work on the other side.
+	Gate func(end string, p *types.Packet)
 	// KeepStats stores a copy of every STAT's stat in the event log.
 	KeepStats bool
 	// OnEvent is called for every logged event (under the log lock).
@@ -161,6 +164,9 @@ func (p *Pair) Teardown() {
 	p.R.cancel()
 }
 
+// Down is closed when the stream is torn down.
+func (p *Pair) Down() <-chan struct{} { return p.down }
+
 func (p *Pair) TornDown() bool {
 	select {
 	case <-p.down:
@@ -234,6 +240,9 @@ func (e *End) SendMsg(m interface{}) error {
 			e.pair.record(ev)
 			return err
 		}
+	}
+	if cfg.Gate != nil {
+		cfg.Gate(e.Name, pk)
 	}
 	var b []byte
 	var err error
